@@ -28,3 +28,17 @@ package expressions
 //@ at call Evaluate #1: innerErr = result1
 //@ ensures negation: innerErr == nil ==> result1 == nil && result0 == box(inner == nil || inner == box(false))
 //@ ensures error: innerErr != nil ==> result1 == innerErr && result0 == nil
+
+// The generated lexer and LALR driver are outside the contracts (DESIGN.md section 5):
+// Parse is assumed to return an expression or an error and to have no visible effect.
+//@ func expressions.Parse
+//@ unverified
+//@ props C08 C01
+//@ assigns nothing
+//@ ensures one: (result1 == nil) != (result0 == nil)
+
+//@ func expressions.ParseStatement
+//@ unverified
+//@ props C08 C01
+//@ assigns nothing
+//@ ensures one: (result1 == nil) != (result0 == nil)
